@@ -357,3 +357,36 @@ Proof.
     apply loc_eqb_eq in E. subst l. vm_compute in Ho. destruct Ho as [Ho|Ho]; discriminate. }
   specialize (H A (1%Z, 0%Z) eq_refl). vm_compute in H. discriminate.
 Qed.
+
+(* ------------------------------------------------------------------ strided save / restore of per-object state *)
+Lemma save_restore_shift {A : Type} (stride : nat) (a rest : list A) (n : nat) (s : nat) :
+  length a = stride ->
+  flat_map (fun k : nat => slice (stride * k) stride (a ++ rest)) (seq (S s) n) =
+  flat_map (fun k : nat => slice (stride * k) stride rest) (seq s n).
+Proof.
+  intro La. revert s. induction n as [|n IH]; intro s; simpl; [reflexivity|].
+  rewrite IH. f_equal. unfold slice. f_equal.
+  replace (stride * S s)%nat with (length a + stride * s)%nat by (rewrite La; lia).
+  rewrite skipn_app. rewrite skipn_all2 by lia. simpl.
+  replace (length a + stride * s - length a)%nat with (stride * s)%nat by lia. reflexivity.
+Qed.
+
+Theorem save_restore_id :
+  forall (A : Type) (stride n : nat) (l : list A), length l = (stride * n)%nat -> save_restore stride stride n l = l.
+Proof.
+  intros A stride n. unfold save_restore. induction n as [|n IH]; intros l Hl.
+  - rewrite Nat.mul_0_r in Hl. apply length_zero_iff_nil in Hl. subst. reflexivity.
+  - assert (La : length (firstn stride l) = stride) by (rewrite firstn_length; lia).
+    assert (Lr : length (skipn stride l) = (stride * n)%nat) by (rewrite skipn_length; lia).
+    rewrite <- (firstn_skipn stride l). generalize dependent (skipn stride l). generalize dependent (firstn stride l).
+    intros a La r Lr. cbn [seq flat_map]. rewrite (save_restore_shift stride a r n 0 La). rewrite (IH r Lr).
+    f_equal. unfold slice. rewrite Nat.mul_0_r. simpl skipn.
+    rewrite firstn_app. rewrite La, Nat.sub_diag. simpl. rewrite app_nil_r. apply firstn_all2. lia.
+Qed.
+
+(* with one shared offset 3*k for a stride-4 array (mocap_quat) the second object already comes back wrong *)
+Lemma save_restore_shared_offset_wrong :
+  save_restore 3 4 2 [10; 11; 12; 13; 20; 21; 22; 23]%Z <> [10; 11; 12; 13; 20; 21; 22; 23]%Z /\
+  save_restore 3 3 2 [10; 11; 12; 20; 21; 22]%Z = [10; 11; 12; 20; 21; 22]%Z /\
+  save_restore 3 4 1 [10; 11; 12; 13]%Z = [10; 11; 12; 13]%Z.
+Proof. vm_compute. repeat split; try reflexivity. discriminate. Qed.
